@@ -461,9 +461,9 @@ def render_uncertainty(nom: str, err: str, exp, unit: str, notation: str, neg: b
         return f"{sign}{nom}e{exp} +/- {err}e{exp}{u}"
     if notation in ("shorthand", "shorthand_e"):
         # nom(dd): the digits in parentheses apply to the last digits of nom
-        if "." not in nom or (notation == "shorthand_e") != (exp is not None):
+        if (notation == "shorthand_e") != (exp is not None):
             return None
-        decimals = len(nom.split(".")[1])
+        decimals = len(nom.split(".")[1]) if "." in nom else 0
         scaled = Fraction(err) * 10 ** decimals
         if scaled.denominator != 1 or scaled <= 0:
             return None
